@@ -60,7 +60,7 @@ LITERALS = NUMBERS + ['"hello world"', "'single q'", '""', 'True', 'false', 'YES
                       '10n5e', '1.5x-2y', '1f2s3b', '1n2e3d', '3x4y5z', '1f2s', '120N10.5', '80W30.75',
                       'some.path', '.abs.path', 'a.b.', 'plain']
 GARBAGE = ['.', '..', 'a..b', '.a.', 'a.', '_x', '9a', '%', '%s', '{0}', '{', '}', 'a%sb', '%(x)s',
-           'été', '١٢', 'a' * 300, '=', '=>', '+', '-', '+-1', ':', 'host:port', ':5', 'a:b:c',
+           'été', '١٢', 'a' * 300, 'a' * 27 + '!', '=', '=>', '+', '-', '+-1', ':', 'host:port', ':5', 'a:b:c',
            '\\', 'a\\', '[', ']', '(', ')', ',', ';', '*', '&', '|', '~', '/', './x', '#', 'x#y', '@', '$',
            '0x', '1e', 'e5', '--1', '1..2', '1n', 'n1e', 'NaN', 'inf', '-inf', 'nan', '1_000', ' ', '\t',
            'a\tb', 'None.', 'True.x', 'me', 'me.', '.me', 'framer', 'framer.', 'framer.me', 'framer.x.frame',
